@@ -316,28 +316,36 @@ Definition max_opt_z (cur : option Z) (new : option Z) : option Z :=
 Definition max_time (a b : str) : result str :=
   do ka <- time_secs a; do kb <- time_secs b; Ok (if (ka <? kb)%Z then b else a).
 
+(* the memory branch of the loop body:
+     max_memory_gb = _convert_to_gb(max_data["memory"]) if max_data["memory"] is not None else 0
+     current_memory_gb = _convert_to_gb(resources.memory)
+     if max_data["memory"] is None or current_memory_gb > max_memory_gb: max_data["memory"] = resources.memory *)
+Definition max_mem_step (cur new : option str) : result (option str) :=
+  match new with
+  | None => Ok cur
+  | Some m =>
+      do cur_max <- match cur with
+                    | Some mm => match mem_bytes mm with Some q => Ok q | None => Err ValueError end
+                    | None => Ok (0 # 1)%Q
+                    end;
+      match mem_bytes m with
+      | None => Err ValueError
+      | Some q => Ok (if negb (is_some cur) || negb (Qle_bool q cur_max) then Some m else cur)
+      end
+  end.
+(* the time branch *)
+Definition max_time_step (cur new : option str) : result (option str) :=
+  match new with
+  | None => Ok cur
+  | Some x => match cur with None => Ok (Some x) | Some c => do y <- max_time c x; Ok (Some y) end
+  end.
+
 Definition combine_step (st : result maxdata) (r : res) : result maxdata :=
   do md <- st;
   let c := max_opt_z (m_cpus md) (cpus r) in
   let g := max_opt_z (m_gpus md) (gpus r) in
-  do mem <-
-    match memory r with
-    | None => Ok (m_memory md)
-    | Some m =>
-        do cur_max <- match m_memory md with
-                      | Some mm => match mem_bytes mm with Some q => Ok q | None => Err ValueError end
-                      | None => Ok (0 # 1)%Q
-                      end;
-        match mem_bytes m with
-        | None => Err ValueError
-        | Some q => Ok (if negb (is_some (m_memory md)) || negb (Qle_bool q cur_max) then Some m else m_memory md)
-        end
-    end;
-  do t <-
-    match time r with
-    | None => Ok (m_time md)
-    | Some x => match m_time md with None => Ok (Some x) | Some cur => do y <- max_time cur x; Ok (Some y) end
-    end;
+  do mem <- max_mem_step (m_memory md) (memory r);
+  do t <- max_time_step (m_time md) (time r);
   let p := match partition r with Some x => Some x | None => m_partition md end in
   let e := fold_left (fun d kv => if xd_has d (fst kv) then d else xd_set d (fst kv) (snd kv))
                      (extra_args r) (m_extra md) in
